@@ -25,12 +25,12 @@ RULE = (
     "ranks) enumerates all transitions (history, event) of the BFS closure; every rank permutation of the non-root, "
     "non-history nodes re-executes each of them on a freshly built machine and the full trace (configuration, context, "
     "ordered markers with event identity, on_transition arguments) must be byte-identical; plus a PYTHONHASHSEED "
-    "subprocess sample; plus independence of process history: every sequence up to the length bound over five machines "
-    "(parameterised guard with a 3-argument implementation, the same with a legacy 2-argument implementation, unparameterised, context factory embedding a definition-level mutable default, context factory embedding a mutable taken from the caller's input) "
+    "subprocess sample; plus independence of process history: every sequence up to the length bound over six machines "
+    "(parameterised guard with a 3-argument implementation, the same with a legacy 2-argument implementation, unparameterised, context factory embedding a definition-level mutable default, context factory embedding a mutable taken from the caller's input, a literal assign whose value is then mutated in place) "
     "is built with fresh callables, run and dropped in one process, each trace must equal the one the machine has by construction; plus independence of generated ids: an actor scenario addressed by bare service keys is run under five generated-id menus (sequential, descending, ids containing each service key), all traces must agree; distinct_nontrivial = distinct (machine, engine, transition, permutation) executions"
 )
 BOUNDS = {
-    "quick": "TREE(N<=4) with parallel/history, all (<=24) rank permutations, both engines; hash seeds {1,2}; process-history sequences of length <=4 over 5 machines",
+    "quick": "TREE(N<=4) with parallel/history, all (<=24) rank permutations, both engines; hash seeds {1,2}; process-history sequences of length <=4 over 6 machines",
     "thorough": "TREE(N<=5) with parallel/history: all permutations when <=4 ranked nodes, for 5 ranked nodes all 120 "
                 "permutations on machines with <=40 transitions else the 10 transpositions + reversal; hash seeds {1,2,3}",
 }
@@ -59,7 +59,8 @@ def uninstall_ranks() -> None:
 
 
 # ------------------------------------------------------------------ independence of what ran earlier in the process
-HIST_MACHINES = ("G3", "G2", "G0", "CF", "CI")
+HIST_MACHINES = ("G3", "G2", "G0", "CF", "CI", "AL")
+_AL_LITERAL = {"q": []}     # one assign literal, part of the definition every AL machine is built from
 _CF_DEFAULTS = {"q": []}   # one definition-level defaults object every CF machine's context factory embeds
 _CI_INPUT = {"q": []}      # one caller-side input object handed to every CI interpreter
 
@@ -106,6 +107,20 @@ def hist_machine(kind: str):
 
         def guard(ctx, ev, params):   # noqa: F811
             return len(ctx["q"]) >= params["min"]
+    if kind == "AL":
+        # BACK resets q with a LITERAL assign and pushes once, INC pushes in place; GO is guarded by len(q) == 2: the
+        # literal belongs to the definition, a run must never see what an earlier push left in it
+        from xstate_statemachine import actions as _A
+
+        cfg["context"] = {"n": 0, "q": []}
+        for st in ("b", "c"):
+            cfg["states"][st]["on"]["BACK"] = {"target": "a", "actions": [_A.assign(_AL_LITERAL), "inc"]}
+
+        def inc(i, c, e, a):   # noqa: F811
+            c["q"].append("x")
+
+        def guard(ctx, ev, params):   # noqa: F811
+            return len(ctx["q"]) == params["min"]
     m = create_machine(cfg, logic=MachineLogic(actions={"hit": hit, "miss": miss, "inc": inc}, guards={name: guard}))
     return m, log
 
@@ -138,6 +153,7 @@ def run_history(tier: str) -> Dict[str, Any]:
         "G2": ((C_, A_, A_, B_, A_, A_, B_), ("miss", "hit", "hit")),      # legacy guard n >= 1, params ignored
         "G0": ((B_, A_, A_, B_, A_, A_, B_), ("hit", "hit", "hit")),
     }
+    ref["AL"] = ref["G2"]                                                  # len(q) == 2 on q = [], [x,x], [x,x]
     ref["CF"] = ref["CI"] = ref["G3"]                                      # len(q) = 0, 1, 2 against min 2
     maxlen = 4 if tier == "quick" else 5
     for n in range(1, maxlen + 1):
